@@ -395,6 +395,9 @@ where
             // no line ending at end of last record
             self.buf_pos.pos.1 = self.get_buf().len();
             self.validate()?;
+            // without terminator, equal line lengths do not imply equal lengths
+            // of sequence and qualities (sequence line may end with CRLF)
+            self.check_trimmed_lengths()?;
             return Ok(true);
         }
 
@@ -499,10 +502,23 @@ where
         let qual_len = self.buf_pos.pos.1 - self.buf_pos.qual + 1;
         let seq_len = self.buf_pos.sep - self.buf_pos.seq;
         if seq_len != qual_len {
+            // The line terminators may differ (e.g. CRLF, but no terminator at
+            // the end of the input) -> compare the actual lengths
+            self.check_trimmed_lengths()?;
+        }
+        Ok(())
+    }
+
+    // Compares the lengths of sequence and qualities without line terminators
+    #[inline(never)]
+    fn check_trimmed_lengths(&mut self) -> Result<(), Error> {
+        let seq = self.buf_pos.seq(self.get_buf()).len();
+        let qual = self.buf_pos.qual(self.get_buf()).len();
+        if seq != qual {
             self.state = State::Finished;
             return Err(Error::UnequalLengths {
-                seq: self.buf_pos.seq(self.get_buf()).len(),
-                qual: self.buf_pos.qual(self.get_buf()).len(),
+                seq,
+                qual,
                 pos: self.get_error_pos(0, true),
             });
         }
